@@ -54,8 +54,8 @@ theorem LInv_same {s s' : St} (hI : LInv s) (h : SameL s s')
     (hc : s'.cpc = s.cpc ∨ (post s.cpc = true ∧ post s'.cpc = true ∧ (s.rAlive = true → inCall s'.cpc = true) ∧
       ((s'.cpc = .rInitSet ∨ s'.cpc = .rStart) → s.cfg.factory = true) ∧
       (∀ i, s'.cpc = .exitJoin i → ∀ j < i, ∀ wid, s.procs[j]? = some wid → s.cfg.joinTimeout = false →
-        ExitedAll s.workers wid) ∧
-      (s'.cpc = .done → ∀ wid ∈ s.procs, s.cfg.joinTimeout = false → ExitedAll s.workers wid))) : LInv s' :=
+        ExitedStrict s.workers wid) ∧
+      (s'.cpc = .done → ∀ wid ∈ s.procs, s.cfg.joinTimeout = false → ExitedStrict s.workers wid))) : LInv s' :=
   LInv_frame hI h.cfg h.workers h.procs h.widCounter h.rpc h.rAlive (by rw [h.replQ]) hc
 
 /-- an in-call step of the consumer -/
@@ -86,14 +86,14 @@ theorem LInv_toNextCall {s : St} (hI : LInv s) (hp : post s.cpc = true) (hr : s.
     · rw [h] at hw; cases hw
     · rw [h] at hd; cases hd
 
-theorem workerExited_all {s : St} (hI : LInv s) {wid : Nat} (h : workerExited s wid = true) : ExitedAll s.workers wid := by
+theorem workerExited_all {s : St} (hI : LInv s) {wid : Nat} (h : workerExited s wid = true) : ExitedStrict s.workers wid := by
   unfold workerExited at h
   split at h
   · rename_i w hg
     obtain ⟨hwm, hwid⟩ := getWorker_some hg
     intro x hx hxw
     have := wid_inj hI.nodup hx hwm (by rw [hxw, hwid])
-    subst this; exact gone_of_exited (by simpa using h)
+    subst this; simpa using h
   · cases h
 
 theorem exitJoinFrom_spec (s : St) (fuel i : Nat) :
@@ -515,7 +515,7 @@ theorem LInv_stepC {s s' : St} (hI : LInv s) (h : stepC s = some s') : LInv s' :
       · rename_i hex
         simp only [Option.some.injEq] at h; subst h
         have hprev : ∀ j, j < i + 1 → ∀ wid', s.procs[j]? = some wid' → s.cfg.joinTimeout = false →
-            ExitedAll s.workers wid' := by
+            ExitedStrict s.workers wid' := by
           intro j hj wid' hw' hjt
           rcases Nat.lt_or_ge j i with hlt | hge
           · exact hI.joined i hpc j hlt wid' hw' hjt
